@@ -423,6 +423,8 @@ class View:
                     # field of an aggregate we know: project
                     if t[0] == "agg" and t[1] in ("tuple",) and e["name"].isdigit() and int(e["name"]) < len(t[2]):
                         t = t[2][int(e["name"])]
+                    elif t[0] == "agg" and t[1] == "closure" and isinstance(e.get("i"), int) and e["i"] < len(t[2]):
+                        t = t[2][e["i"]]     # a captured variable of a closure whose environment is known (expanded closure call)
                     else:
                         t = ("field", t, e.get("variant"), e["name"])
             elif ek == "index":
